@@ -3,7 +3,7 @@
 From Coq Require Import List Arith Bool Ascii String.
 Local Open Scope string_scope.
 Local Open Scope list_scope.
-From Cb Require Import C17.Model C17.Spec C17.Expand C17.Complete.
+From Cb Require Import C17.Model C17.Spec C17.Expand C17.Complete C17.Classify.
 Import ListNotations.
 
 (* Conditional inclusion, any nesting depth, any initial table / line number / file name: running the
@@ -59,6 +59,22 @@ Theorem dflag_is_leading_define : forall t file raw n v, user_name n ->
   forall m, user_name m -> lookup m (tab (cor p)) = lookup m (define t n v).
 Proof. exact dflag_is_define_l. Qed.
 Print Assumptions dflag_is_leading_define.
+
+(* the canonical spelling of each directive is classified as intended, for every macro name that is a
+   non-empty string without white space (other spellings are exercised by the correspondence run) *)
+Theorem directive_text_classified : forall n, n <> [] -> nosp n ->
+  classify (s2l "#ifdef " ++ n) = KIfdef n /\ classify (s2l "#ifndef " ++ n) = KIfndef n /\
+  classify (s2l "#elif " ++ n) = KElif n /\ classify (s2l "#undef " ++ n) = KPlain (PUndef n) /\
+  classify (s2l "#else") = KElse /\ classify (s2l "#endif") = KEndif.
+Proof.
+  intros n H1 H2. repeat split; [apply classify_ifdef|apply classify_ifndef|apply classify_elif|apply classify_undef|
+    apply classify_else_endif|apply classify_else_endif]; assumption.
+Qed.
+Print Assumptions directive_text_classified.
+
+Theorem define_flag_classified : forall n, name_ok n -> classify (s2l "#define " ++ n) = KPlain (PDefine n one false).
+Proof. exact classify_define_flag. Qed.
+Print Assumptions define_flag_classified.
 
 (* every position the expander replaces holds a whole-word occurrence of the macro name that lies
    outside the string-literal ranges it was given *)
